@@ -42,6 +42,14 @@ type frameConn struct {
 	mu sync.Mutex
 }
 
+// Write serializes the writes that do not come through writeServerText: the websocket library
+// answers the client's ping and close frames by itself, with one Write per frame
+func (c *frameConn) Write(p []byte) (int, error) {
+	c.mu.Lock()
+	defer c.mu.Unlock()
+	return c.Conn.Write(p)
+}
+
 // writeServerText writes one text frame; frames written to a frameConn never interleave
 func writeServerText(conn net.Conn, msg []byte) error {
 	if fc, ok := conn.(*frameConn); ok {
@@ -107,10 +115,10 @@ func (g *Gateway) subscriptionHandler(w http.ResponseWriter, r *http.Request) {
 		defer conn.mu.Unlock()
 		body := ws.NewCloseFrameBody(ws.StatusNormalClosure, "")
 		frame := ws.NewCloseFrame(body)
-		if err := ws.WriteHeader(conn, frame.Header); err != nil {
+		if err := ws.WriteHeader(conn.Conn, frame.Header); err != nil {
 			return
 		}
-		if _, err := conn.Write(body); err != nil {
+		if _, err := conn.Conn.Write(body); err != nil {
 			return
 		}
 	}()
